@@ -367,6 +367,7 @@ def build_corpus(rng, n_random):
             for b in bs:
                 self.add(b)
     sub, trunc, refr, odd, fragc, addr, rnd, lpo, nackd = (_Add(c) for c in ('mut-sub', 'mut-trunc', 'mut-reframed', 'odd', 'frag', 'addr-malformed', 'random', 'lp-overrun', 'nack-around-data'))
+    addri, addrn = _Add('addr-malformed-interest'), _Add('addr-nack-malformed')
     for s in seeds:
         for i in range(len(s)):
             for x in (0x01, 0x80, 0xFF):
@@ -416,6 +417,35 @@ def build_corpus(rng, n_random):
             m = w[:cut]
             if not wellformed_strict(m):
                 addr.add(m)
+    # Interests that DO name something pending / attached, with an intact Name and ill-formed behind it: bare they must not
+    # reach a handler, under a Nack header they must not fail the Interest pending under that name (seed round 8: the
+    # legacy Nack path decoded the Name only). Ill-formed = rejected by the strict reader, or an unknown critical element
+    for comps in pc.NAMES:
+        for w in (bytes(enc.make_interest(nm(comps), enc.InterestParam(lifetime=1000, nonce=0x01020304))),
+                  bytes(enc.make_interest(nm(comps), enc.InterestParam(lifetime=2000, nonce=5, can_be_prefix=True, hop_limit=9)))):
+            # position of the first octet behind the Name element
+            t, ts = st.parse_var(w)
+            l, ls = st.parse_var(w[ts:])
+            o = ts + ls
+            nt_, nts = st.parse_var(w[o:])
+            nl, nls = st.parse_var(w[o + nts:])
+            name_end = o + nts + nls + nl
+            muts = []
+            for i in range(name_end, len(w)):
+                for delta in (1, 0x7F):
+                    m = bytearray(w); m[i] = (m[i] + delta) % 256
+                    muts.append(bytes(m))
+            # unknown critical elements (odd type numbers below 32 are critical) in place of / behind the known ones
+            muts.append(w[:1] + st.write_var(len(w) - 2 + 3) + w[2:] + bytes([0x0b, 0x01, 0x00]))
+            muts.append(w[:1] + st.write_var(len(w) - 2 + 2) + w[2:] + bytes([0x1f, 0x00]))
+            for cut in range(name_end + 1, len(w)):
+                muts.append(w[:1] + st.write_var(cut - 2) + w[2:cut])          # cut inside a field, outer length consistent
+            for m in muts:
+                crit = m.endswith(bytes([0x0b, 0x01, 0x00])) or m.endswith(bytes([0x1f, 0x00]))
+                if crit or not wellformed_strict(m):
+                    addri.add(m)
+                    addrn.add(pitkit.lp_wrap(m, nack_reason=150))
+                    addrn.add(pitkit.lp_wrap(m, nack_reason=0, extra=True))
     for _ in range(n_random):
         rnd.add(bytes(rng.randrange(256) for _ in range(rng.choice([1, 2, 3, 5, 8, 20, 60]))))
     corpus.pop(b'', None)
